@@ -221,8 +221,10 @@ def check_case(ctx, ds, calc, desc, insts):
     if ds.lattice and frac.shape[0] >= 6:
         for end, (a, b, c, e) in (("first", (0, 1, 2, 3)), ("last", (-1, -2, -3, -4))):
             step = frac[b] - frac[c]
-            cont = frac[b] + 0.75 * step
-            allow = 0.3 * numpy.abs(step) + 3.0 * numpy.abs(frac[b] - 2.0 * frac[c] + frac[e]) + 1e-7
+            # (anything from no continuation to a step and a fifth is taken: a one-sided difference at the end of a curved field gives
+            #  less than the half step of a linear one - observed 0.34; a wrap-around shows as several steps)
+            cont = frac[b] + 0.6 * step
+            allow = 0.6 * numpy.abs(step) + 4.0 * numpy.abs(frac[b] - 2.0 * frac[c] + frac[e]) + 1e-7
             if not numpy.all(numpy.abs(frac[a] - cont) <= allow):
                 ctx.violation(f"axial strain fractions at the {end} grid volume are {frac[a].tolist()}; the neighbouring volumes have {frac[b].tolist()} and "
                               f"{frac[c].tolist()} (the axis lengths change smoothly with volume: no such jump at the end of the grid)", desc,
